@@ -18,6 +18,7 @@ EXPLANATION = (
     "The statistical indistinguishability claim (>= 200 lists, 2^-100) is a distribution over runs and is not decided."
     " C12.D1 also: with its parameter assumed an Array/Object the marker returns no unprocessed copy of it, and no builder returns (a copy of) its input container: every object is visited by the object builder."
     " C12.D3 accepts a sort only if it orders the digests by their content (sort, sort_unstable, a key / comparator that is the string itself) or shuffles them."
+    " C12.D1 always-visible: only iss / iat / exp are taken out of the claims before the walk that adds decoys (clause shared with C05.P3): objects under other root names get their decoys."
 )
 ASSUMPTIONS = [
     "a lexicographic order of base64 SHA-256 digests of secret-salted inputs carries neither member order nor decoy-ness (cryptographic assumption)",
